@@ -2249,7 +2249,17 @@ class Interp:
     def call(self, st, fr, t, blk):
         c = t['call'].get('const') if isinstance(t['call'], dict) else None
         if c is None or 'fn' not in c:
-            raise Stop('indirect call')
+            # a call through a function pointer / fn item held in a local: follow the value
+            callee = None
+            try:
+                callee = self.operand(st, fr, t['call'])
+            except (KeyError, TypeError):
+                pass
+            if isinstance(callee, Ref):
+                callee = self.load(st, callee) if hasattr(self, 'load') else callee
+            if not isinstance(callee, FnVal):
+                raise Stop('indirect call')
+            c = callee.c
         args = [self.operand(st, fr, a) for a in t['args']]
         r = c.get('resolved')
         fid = (r or c)['fn']
@@ -2364,7 +2374,21 @@ class Interp:
                 return CALL_PUSHED
             fn = self.db.fns.get(r['fn'])
             if fn is None:
-                raise Stop('call of external fn item %s' % r['path'])
+                # an external function passed as a value (`.map(Ordering::reverse)`): its model, applied as at a direct call
+                path = norm_path(r['path'])
+                m = self.models.lookup(path, r['fn'])
+                if m is None:
+                    raise Stop('call of external fn item %s' % r['path'])
+                val = m(self, st, fr, list(cargs), path, r.get('args', []), {'dest': dest, 'target': target, 'args': []})
+                if val is CALL_PUSHED:
+                    raise Stop('external fn item %s needs a continuation' % r['path'])
+                if on_return is not None:
+                    val = on_return(self, st, val)
+                if isinstance(val, Defer):
+                    fr.pending = (val.k, dest, target)
+                    return CALL_PUSHED
+                self.finish_call(st, fr, dest, target, val)
+                return CALL_PUSHED
             L = {i + 1: a for i, a in enumerate(cargs)}
             nf = Frame(fn, fn, L, dest, target, {})
             nf.on_return = on_return
